@@ -170,6 +170,8 @@ def run_harness(harness, lines, hang_ms=2000, confirm=True):
 
 def eval_batch(args):
     harness, runner, cases, want_model, suspects_too, variant = args
+    if isinstance(cases, tuple):
+        cases = expand_exhaustive(cases)
     VARIANT.update(variant)
     cases = [[c[0], c[1], with_variant(c[2])] for c in cases]
     suspects = []
@@ -311,26 +313,29 @@ def cursors_of(line):
     return out
 
 
-def exhaustive_batches(maxlen_allcursors, maxlen, batch=20000):
-    """all lines over ALPHA up to maxlen; every char-boundary cursor up to maxlen_allcursors, beyond
-    that one cursor per line, rotating over the boundaries"""
-    cur = []
-    rot = 0
+def exhaustive_batches(maxlen_allcursors, maxlen):
+    """descriptors (expanded in the workers, see expand_exhaustive) for all lines over ALPHA up to
+    maxlen; every char-boundary cursor up to maxlen_allcursors, beyond that one cursor per line,
+    rotating over the boundaries"""
     for n in range(0, maxlen + 1):
-        for t in itertools.product(ALPHA, repeat=n):
-            line = "".join(t)
-            cs = cursors_of(line)
-            if n <= maxlen_allcursors:
-                for c in cs:
-                    cur.append([line, str(c), ""])
-            else:
-                rot += 1
-                cur.append([line, str(cs[rot % len(cs)]), ""])
-            if len(cur) >= batch:
-                yield cur
-                cur = []
-    if cur:
-        yield cur
+        k = 0 if n <= 3 else (n - 3)
+        for pre in itertools.product(range(len(ALPHA)), repeat=k):
+            yield ("ex", n, pre, n <= maxlen_allcursors)
+
+
+def expand_exhaustive(desc):
+    _tag, n, pre, allc = desc
+    out = []
+    head = "".join(ALPHA[i] for i in pre)
+    for t in itertools.product(range(len(ALPHA)), repeat=n - len(pre)):
+        line = head + "".join(ALPHA[i] for i in t)
+        cs = cursors_of(line)
+        if allc:
+            for c in cs:
+                out.append([line, str(c), ""])
+        else:
+            out.append([line, str(cs[(sum(pre) + sum(t) * 7 + t[-1]) % len(cs)]), ""])
+    return out
 
 
 WORDS = ["echo", "ls", "ll", "fn1", "if", "then", "fi", "for", "do", "done", "x=1", "a=$b", "-l", "--opt", "/bin/ls",
@@ -463,9 +468,10 @@ def fixed_cases():
 
 # ------------------------------------------------------------------ driver entry points
 
-def run_all(ctx, batches, want_model=True, procs=8):
+def run_all(ctx, batches, want_model=True, procs=None):
     """lines in hang_class (predicted to loop in the tokenizer, 0.7 GB/s of allocation) are kept out of
     the batches; a bounded sample of them is run one per process afterwards"""
+    procs = procs or int(os.environ.get("VERIF_C19_PROCS", "8" if ctx.quick else "12"))
     tot = empty()
     samples = []
     suspects = []
@@ -497,7 +503,7 @@ def all_batches(ctx, rng, scale=1):
     if quick:
         yield from exhaustive_batches(4, 5)
     else:
-        yield from exhaustive_batches(5, 6)
+        yield from exhaustive_batches(4, 6)
 
 
 def run(ctx):
